@@ -85,10 +85,20 @@ def go_order(rep, lib):
     for fld, kind, parser in OPTIONS:
         key = "go/parses[%s]" % fld
         pcs = [c for c in go.calls if (c.name or "").endswith(parser)]
-        if len(pcs) != 1:
-            r.bad(key, "expected one call of %s in Master::go, found %d" % (parser, len(pcs)), go.where())
+        # a helper of Master that go calls and that contains the parser call counts as the parser if, given the
+        # option list, every non-error return of the helper has passed the parser call (one level of helpers)
+        helpers = {}
+        if not pcs:
+            for c in go.calls:
+                hb = lib.bodies.get(c.name or "")
+                if hb is None or hb is go or not any((x.name or "").endswith(parser) for x in hb.calls):
+                    continue
+                helpers[c.bb] = hb
+        if not pcs and not helpers:
+            r.bad(key, "no call of %s in Master::go or in a helper it calls" % parser, go.where())
             continue
-        pc = pcs[0]
+        pc = pcs[0] if pcs else None
+        pcbbs = {c.bb for c in pcs}
         cli = [None] * len(cf)
         fi = cf.index(fld)
         if kind == "opt":
@@ -104,12 +114,17 @@ def go_order(rep, lib):
             mv[mf.index("cli")] = ("adt", 0, tuple(cli))
         arrivals = []
 
-        def model(c, av, envv, pe, pc=pc):
+        def model(c, av, envv, pe, pcbbs=pcbbs, helpers=helpers):
             n = c.name or ""
             cal = c.callee or ""
-            if c.bb == pc.bb:
+            if c.bb in pcbbs:
                 envv[-20] = ("b", True)
                 return (True, ("adt", 0, (None,)))
+            if c.bb in helpers:
+                if _helper_parses(lib, helpers[c.bb], parser, [pe._deref_all(envv, a) if a is not None else None
+                                                                  for a in av], TOK):
+                    envv[-20] = ("b", True)
+                return (True, ("adt", 0, (None,)) if c.dest.get("ty", "").startswith("std::result::Result<") else None)
             x = pe._deref_all(envv, av[0]) if av else None
             # the option's own list is followed as a token through deref / iter / adapters; any other slice is unknown
             if cal == "std::ops::Deref::deref" and x == TOK:
@@ -148,9 +163,58 @@ def go_order(rep, lib):
         elif not all(arrivals):
             r.bad(key, "with self.cli.%s present there is a combination of the other options for which start() is "
                   "reached without %s having been called: an invalid value would not be reported before input is "
-                  "read" % (fld, parser.split(" as ")[0].rsplit("::", 1)[-1]), pc.where())
+                  "read" % (fld, parser.split(" as ")[0].rsplit("::", 1)[-1]), (pc.where() if pc else go.where()))
         else:
-            r.ok(key, "parsed on each of the %d explored ways to start()" % len(arrivals), pc.where())
+            r.ok(key, "parsed on each of the %d explored ways to start()%s" % (
+                len(arrivals), "" if pcs else " (inside a helper of Master::go)"), (pc.where() if pc else go.where()))
+
+
+def _helper_parses(lib, hb, parser, argvals, TOK):
+    """In helper body hb, called with these argument values (the option list token among them, possibly behind a
+    reference), every non-error return has passed a call of the parser on an element of the list."""
+    env = {}
+    for i, v in enumerate(argvals):
+        if v is not None:
+            env[i + 1] = ("rv", v) if (hb.local_ty(i + 1).startswith("&") and v[0] != "rv") else v
+    flags = []
+
+    def model(c, av, envv, pe):
+        n = c.name or ""
+        cal = c.callee or ""
+        if n.endswith(parser):
+            envv[-20] = ("b", True)
+            return (True, ("adt", 0, (None,)))
+        x = pe._deref_all(envv, av[0]) if av else None
+        if cal == "std::ops::Deref::deref" and x == TOK:
+            return (True, ("rv", TOK))
+        if (n.endswith("]>::iter") or n.endswith("::iter")) and x == TOK:
+            return (True, ("itok",))
+        if cal in ("std::iter::Iterator::enumerate", "std::iter::Iterator::rev",
+                   "std::iter::IntoIterator::into_iter") and (x == ("itok",) or x == TOK):
+            return (True, ("itok",))
+        if cal == "std::iter::Iterator::next" and x == ("itok",):
+            k = envv.get(-21, ("i", 0))[1]
+            envv[-21] = ("i", min(k + 1, 2))
+            if k == 0:
+                return (True, some(("adt", 0, (("i", 0), ("s", "X")))) if "Enumerate" in (c.full or "") else some(("s", "X")))
+            return (True, NONE)
+        if c.dest.get("ty", "").startswith("std::result::Result<") and (c.t.get("resolved_local") or c.is_dyn()):
+            return (True, ("adt", 0, (None,)))
+        return None
+    pe = PE(hb, model, eq_ok=common.derived_eq_ok(lib), max_states=100000)
+
+    def hook(bb, e, first):
+        if hb.term(bb)["k"] == "return":
+            v = e.get(0)
+            if not (v is not None and v[0] == "adt" and v[1] == 1 and hb.local_ty(0).startswith("std::result::Result<")):
+                flags.append(bool(e.get(-20)))
+        return None
+    pe.visit_hook = hook
+    try:
+        pe.run(env=env)
+    except RuntimeError:
+        return False
+    return bool(flags) and all(flags)
 
 
 # ------------------------------------------------------------------ (b) trailing text
